@@ -40,7 +40,8 @@ def full_member_world(r, spec):
                     continue
                 wants.append([t, c])
         elif t == 'Box':
-            wants.append(['Box', ['Key', r.choice(spec['colors'])]])
+            inner = [x for x in spec['types'] if x not in ('Box', 'Door', spec['unique']) and not (x == 'Beacon' and spec.get('beacon'))] or ['Floor']
+            wants.append(W.gen_obj(r, 'Box', spec['colors'], inner=inner))
         else:
             wants.append([t])
     r.shuffle(wants)
